@@ -375,7 +375,7 @@ Definition conv_pointer (it : item) (x : pyval) : conv :=
   | PyCPtr have null mem => if ptr_compat it have then COk (if null then CNull else CMem mem) else CErr TypeError
   | PyCArr have mem => if ptr_compat it have then COk (CMem mem) else CErr TypeError
   | PyCPrim _ _ _ | PyCStruct _ _ => CErr TypeError
-  | PyCFn => CErr TypeError
+  | PyCFn => match it with IVoid => COk (CMem []) | _ => CErr TypeError end    (* a function pointer converts to void* *)
   | PyBytes l =>
       if is_voidchar it || (match it with IPrim _ (PI 1 _) => true | IPrim _ PB => true | _ => false end)
       then match it with
